@@ -18,6 +18,8 @@ package main
 import (
 	"errors"
 	"fmt"
+	"iter"
+	"net/http"
 	"slices"
 	"strconv"
 	"strings"
@@ -114,11 +116,16 @@ func lookupAll(f *fox.Router, cur *served, method, host, path string) (res strin
 	var ps []fox.Param
 	if cc != nil {
 		ps = slices.Collect(cc.Params())
-		cc.Close()
 	}
 	res = showLookup(rte, ps, tsr)
 
 	var diffs []string
+	if cc != nil {
+		if o := paramsEarlyStop(cc, ps); o != "" {
+			diffs = append(diffs, o)
+		}
+		cc.Close()
+	}
 	// Reverse
 	r2, tsr2 := f.Reverse(method, host, path)
 	if r2 != rte || tsr2 != tsr {
@@ -135,6 +142,25 @@ func lookupAll(f *fox.Router, cur *served, method, host, path string) (res strin
 	if s := showLookup(r3, ps3, tsr3); s != res {
 		diffs = append(diffs, "Txn.Lookup="+s)
 	}
+	// a request whose URL carries the path to match in RawPath (and something else in Path): both Lookups match RawPath
+	if path != "" {
+		for i, lk := range []func(fox.ResponseWriter, *http.Request) (*fox.Route, fox.ContextCloser, bool){f.Lookup, txn.Lookup} {
+			rq := newReq(method, host, "/zzdecoded")
+			rq.URL.RawPath = path
+			rr, ccr, tr := lk(foxWriter{newRecWriter()}, rq)
+			var psr []fox.Param
+			if ccr != nil {
+				psr = slices.Collect(ccr.Params())
+				if o := paramsEarlyStop(ccr, psr); o != "" {
+					diffs = append(diffs, o)
+				}
+				ccr.Close()
+			}
+			if s := showLookup(rr, psr, tr); s != res {
+				diffs = append(diffs, fmt.Sprintf("Lookup(RawPath)[%d]=%s", i, s))
+			}
+		}
+	}
 	r4, tsr4 := txn.Reverse(method, host, path)
 	if r4 != rte || tsr4 != tsr {
 		diffs = append(diffs, "Txn.Reverse="+showLookup(r4, nil, tsr4))
@@ -145,6 +171,20 @@ func lookupAll(f *fox.Router, cur *served, method, host, path string) (res strin
 	for _, r := range txn.Iter().Reverse(slices.Values([]string{method}), host, path) {
 		r5 = r
 		n5++
+	}
+	// the same over every registered method at once, and stopped early
+	{
+		var full []string
+		show := func(m string, r *fox.Route) string { return m + ":" + hx(r.Pattern()) }
+		for m, r := range txn.Iter().Reverse(txn.Iter().Methods(), host, path) {
+			full = append(full, show(m, r))
+			if m == method && r != r5 {
+				diffs = append(diffs, "Iter.Reverse(all methods) yields "+show(m, r)+" for "+method)
+			}
+		}
+		if o := earlyStop2("Iter.Reverse", txn.Iter().Reverse(txn.Iter().Methods(), host, path), full, show); o != "" {
+			diffs = append(diffs, o)
+		}
 	}
 	txn.Abort()
 	want5 := rte
@@ -345,20 +385,32 @@ func runOpsOn(f *fox.Router, opsField string) (outI, outJ, oracles []string) {
 			emit(hidOf(r), hidOf(r))
 		case a[0] == "N":
 			s := strconv.Itoa(f.Len())
+			if o := invalidWrites(f); o != "" {
+				oracles = append(oracles, o)
+			}
 			emit(s, s)
 		case a[0] == "A":
 			var items []string
 			for m, r := range f.Iter().All() {
 				items = append(items, m+":"+hx(r.Pattern())+":"+hidOf(r))
 			}
+			if o := earlyStop2("Iter.All", f.Iter().All(), items, func(m string, r *fox.Route) string { return m + ":" + hx(r.Pattern()) + ":" + hidOf(r) }); o != "" {
+				oracles = append(oracles, o)
+			}
 			emit(strings.Join(items, "+"), sortedJoin(items, "+"))
 		case a[0] == "M":
 			items := slices.Collect(f.Iter().Methods())
+			if o := earlyStop("Iter.Methods", f.Iter().Methods(), items); o != "" {
+				oracles = append(oracles, o)
+			}
 			emit(strings.Join(items, "+"), sortedJoin(items, "+"))
 		case a[0] == "P" && len(a) == 3:
 			var items []string
 			for m, r := range f.Iter().Prefix(slices.Values(strings.Split(a[1], "+")), unhx(a[2])) {
 				items = append(items, m+":"+hx(r.Pattern()))
+			}
+			if o := earlyStop2("Iter.Prefix", f.Iter().Prefix(slices.Values(strings.Split(a[1], "+")), unhx(a[2])), items, func(m string, r *fox.Route) string { return m + ":" + hx(r.Pattern()) }); o != "" {
+				oracles = append(oracles, o)
 			}
 			emit(strings.Join(items, "+"), sortedJoin(items, "+"))
 		case a[0] == "X":
@@ -369,6 +421,132 @@ func runOpsOn(f *fox.Router, opsField string) (outI, outJ, oracles []string) {
 		}
 	}
 	return
+}
+
+// invalidWrites: writes that name no (method, pattern) key at all - a missing or malformed method, a nil route, a nil
+// handler - fail with an error, through the router helpers and inside a transaction that is then committed, and leave
+// the registered routes as they were.
+func invalidWrites(f *fox.Router) string {
+	before := fox.VerifDumpRouter(f)
+	h := func(c fox.Context) {}
+	var pat string
+	var meth string
+	for m, r := range f.Iter().All() {
+		meth, pat = m, r.Pattern()
+		break
+	}
+	if pat == "" {
+		meth, pat = "GET", "/zzinvalid"
+	}
+	good, _ := f.NewRoute(pat, h)
+	fresh, _ := f.NewRoute("/zzinvalid/{a}", h)
+	var bad []string
+	expect := func(what string, err error) {
+		if err == nil {
+			bad = append(bad, what+" succeeded")
+		}
+	}
+	err := f.Updates(func(txn *fox.Txn) error {
+		for _, m := range []string{"", "get", "G3T", "GE T", "GET "} {
+			expect("Txn.HandleRoute method "+strconv.Quote(m), txn.HandleRoute(m, fresh))
+			_, e := txn.Handle(m, "/zzinvalid/{a}", h)
+			expect("Txn.Handle method "+strconv.Quote(m), e)
+		}
+		expect("Txn.HandleRoute nil route", txn.HandleRoute("GET", nil))
+		expect("Txn.UpdateRoute nil route", txn.UpdateRoute(meth, nil))
+		expect("Txn.UpdateRoute empty method", txn.UpdateRoute("", good))
+		_, e := txn.Update("", pat, h)
+		expect("Txn.Update empty method", e)
+		_, e = txn.Update(meth, pat, nil)
+		expect("Txn.Update nil handler", e)
+		_, e = txn.Handle("GET", "/zzinvalid/{a}", nil)
+		expect("Txn.Handle nil handler", e)
+		_, e = txn.Delete("", pat)
+		expect("Txn.Delete empty method", e)
+		return nil
+	})
+	if err != nil {
+		bad = append(bad, "Updates: "+err.Error())
+	}
+	expect("Router.HandleRoute nil route", f.HandleRoute("GET", nil))
+	expect("Router.UpdateRoute nil route", f.UpdateRoute(meth, nil))
+	expect("Router.HandleRoute empty method", f.HandleRoute("", fresh))
+	if _, e := f.Delete("", pat); e == nil {
+		bad = append(bad, "Router.Delete empty method succeeded")
+	}
+	if after := fox.VerifDumpRouter(f); after != before {
+		bad = append(bad, "the registered routes changed: "+before+" -> "+after)
+	}
+	if len(bad) > 0 {
+		return "invalid writes: " + strings.Join(bad, "; ")
+	}
+	return ""
+}
+
+// paramsEarlyStop: Context.Params stopped after its first element yields the first parameter and stops.
+func paramsEarlyStop(c fox.Context, full []fox.Param) (o string) {
+	defer func() {
+		if p := recover(); p != nil {
+			o = fmt.Sprintf("Context.Params: stopping early panics: %v", p)
+		}
+	}()
+	for k := 1; k <= len(full) && k <= 2; k++ {
+		var got []fox.Param
+		for p := range c.Params() {
+			got = append(got, p)
+			if len(got) == k {
+				break
+			}
+		}
+		if !slices.Equal(got, full[:k]) {
+			return fmt.Sprintf("Context.Params: the first %d elements are %v, the full enumeration starts %v", k, got, full[:k])
+		}
+	}
+	return ""
+}
+
+// earlyStop2 consumes seq again but stops after every possible number of elements: a consumer that breaks out of the loop
+// sees exactly the prefix of the full enumeration, and the sequence stops calling it (the runtime panics otherwise).
+func earlyStop2(what string, seq iter.Seq2[string, *fox.Route], full []string, show func(string, *fox.Route) string) (o string) {
+	defer func() {
+		if p := recover(); p != nil {
+			o = fmt.Sprintf("%s: stopping early panics: %v", what, p)
+		}
+	}()
+	for k := 1; k <= len(full) && k <= 3; k++ {
+		var got []string
+		for m, r := range seq {
+			got = append(got, show(m, r))
+			if len(got) == k {
+				break
+			}
+		}
+		if !slices.Equal(got, full[:k]) {
+			return fmt.Sprintf("%s: the first %d elements are %v, the full enumeration starts %v", what, k, got, full[:k])
+		}
+	}
+	return ""
+}
+
+func earlyStop(what string, seq iter.Seq[string], full []string) (o string) {
+	defer func() {
+		if p := recover(); p != nil {
+			o = fmt.Sprintf("%s: stopping early panics: %v", what, p)
+		}
+	}()
+	for k := 1; k <= len(full) && k <= 3; k++ {
+		var got []string
+		for m := range seq {
+			got = append(got, m)
+			if len(got) == k {
+				break
+			}
+		}
+		if !slices.Equal(got, full[:k]) {
+			return fmt.Sprintf("%s: the first %d elements are %v, the full enumeration starts %v", what, k, got, full[:k])
+		}
+	}
+	return ""
 }
 
 // ---------------------------------------------------------------------------------------------- gen
